@@ -273,38 +273,132 @@ def rule_tune(F, R):
                 "store() resizes shared containers under the parallel section: %s" % resizing)
 
 
+def _optimum_eval(F, R, f):
+    """optimum_trial() evaluated for 1..4 trials and every assignment of values from {1, 2, 3} (ties included) to value(trial): the returned
+    index is a trial of minimal value; value() is asked for the validation errors (its defaults, or those enumerators spelled out)"""
+    import itertools
+    import sympy as sp
+    from ..symexec import Interp
+    from ..kalg import OutOfFragment
+
+    class OI(Interp):
+        T = 1
+        table = ()
+        kinds = None
+
+        def ev(self, n):
+            n2 = skip(n)
+            if n2 is not None and n2["k"] == "call":
+                q = callee(n2)
+                if q == "nano::ml::result_t::trials":
+                    return sp.Integer(self.T)
+                if q == "nano::ml::result_t::value":
+                    a = args(n2)
+                    i = self.ev(a[0])
+                    if not sp.sympify(i).is_Integer or not 0 <= int(i) < self.T:
+                        raise OutOfFragment("value(%s) with %d trials" % (i, self.T))
+                    self.kinds.add(tuple(y["n"] for x in a[1:] for y in walk(x) if y["k"] == "ref" and y.get("dk") == "enum"))
+                    return sp.Integer(self.table[int(i)])
+                if q in ("std::numeric_limits::max", "std::numeric_limits::infinity"):
+                    return sp.Integer(10 ** 9)
+                if q in ("std::numeric_limits::lowest",):
+                    return sp.Integer(-10 ** 9)
+            return super().ev(n)
+
+    bad = None
+    n = 0
+    kinds = set()
+    try:
+        for T in (1, 2, 3, 4):
+            for table in itertools.product((1, 2, 3), repeat=T):
+                it = OI(F, f, n=1)
+                it.T, it.table, it.kinds = T, table, kinds
+                got = it.run()
+                n += 1
+                if got is None or not sp.sympify(got).is_Integer or not 0 <= int(got) < T or table[int(got)] != min(table):
+                    bad = "with the trial values %s optimum_trial() returns %s (the smallest value is at %s)" % (list(table), got, [i for i, v in enumerate(table) if v == min(table)])
+                    break
+            if bad:
+                break
+    except OutOfFragment as e:
+        R.incomplete("R-C13-7", "optimum trial", f.loc(), "cannot evaluate optimum_trial(): %s" % e)
+        return
+    if bad is None and kinds != {("nano::ml::split_type::valid", "nano::ml::value_type::errors")}:
+        bad = "the values compared are value(trial, %s), not the validation errors" % sorted(kinds)
+    R.check(bad is None, "R-C13-7", "optimum trial", f.loc(), "arg-min over all trials of value(trial) = mean validation error (evaluated for %d value assignments, ties included)" % n,
+            "optimum_trial is no longer an arg-min of the validation error: %s" % bad)
+
+
+def _trial_value(F, R, g):
+    """value(trial, split, value) evaluated symbolically for 1..4 folds, the statistics of fold f being free symbols (mean_f, count_f > 0, ...):
+    the result is (mean_0 + ... + mean_{K-1}) / K, every fold's statistics being asked for with the caller's trial, split and value kind"""
+    import sympy as sp
+    from ..symexec import Interp
+    from ..kalg import OutOfFragment
+
+    class VI(Interp):
+        K = 1
+        asked = None
+
+        def ev(self, n):
+            n2 = skip(n)
+            if n2 is not None and n2["k"] == "call" and callee(n2) == "nano::ml::result_t::folds":
+                return sp.Integer(self.K)
+            if n2 is not None and n2["k"] == "call" and callee(n2) == "nano::ml::result_t::trials":
+                return sp.Symbol("trials", integer=True, positive=True)
+            if n2 is not None and n2["k"] == "call" and callee(n2) == "nano::ml::result_t::stats":
+                a = [self.ev(x) for x in args(n2)]
+                self.asked.append(a)
+                fold = a[1] if len(a) > 1 else None
+                tag = str(fold)
+                return {"m_mean": sp.Symbol("mean_" + tag, real=True), "m_count": sp.Symbol("count_" + tag, positive=True),
+                        "m_stdev": sp.Symbol("stdev_" + tag, positive=True), "m_per01": sp.Symbol("p01_" + tag, real=True),
+                        "m_per05": sp.Symbol("p05_" + tag, real=True), "m_per10": sp.Symbol("p10_" + tag, real=True),
+                        "m_per20": sp.Symbol("p20_" + tag, real=True), "m_per50": sp.Symbol("p50_" + tag, real=True),
+                        "m_per80": sp.Symbol("p80_" + tag, real=True), "m_per90": sp.Symbol("p90_" + tag, real=True),
+                        "m_per95": sp.Symbol("p95_" + tag, real=True), "m_per99": sp.Symbol("p99_" + tag, real=True)}
+            if n2 is not None and n2["k"] == "mem" and n2.get("c") and skip(n2["c"][0]) is not None and skip(n2["c"][0])["k"] != "this":
+                b = self.ev(n2["c"][0])
+                if isinstance(b, dict):
+                    if n2["n"] not in b:
+                        raise OutOfFragment("field %s of the fold statistics" % n2["n"])
+                    return b[n2["n"]]
+            if n2 is not None and n2["k"] == "cast" and n2.get("ck") == "ToVoid":
+                return sp.Integer(0)
+            return super().ev(n)
+
+    bad = None
+    n = 0
+    try:
+        for K in (1, 2, 3, 4):
+            it = VI(F, g, n=1)
+            it.K, it.asked = K, []
+            ps = [sp.Symbol(p_["n"], integer=True, nonnegative=True) if i_ == 0 else sp.Symbol(p_["n"]) for i_, p_ in enumerate(g.params)]
+            for p_, v_ in zip(g.params, ps):
+                it.env[p_["d"]] = v_
+            got = it.run()
+            want = sum(sp.Symbol("mean_%d" % f_, real=True) for f_ in range(K)) / K
+            n += 1
+            if got is None or sp.simplify(got - want) != 0:
+                bad = "with %d fold(s) value(trial) evaluates to %s, the mean over folds of the per-fold mean is %s" % (K, got, want)
+                break
+            folds = sorted(str(a[1]) for a in it.asked)
+            if folds != [str(f_) for f_ in range(K)] or any(len(a) != 4 or a[0] != ps[0] or a[2] != ps[1] or a[3] != ps[2] for a in it.asked):
+                bad = "with %d fold(s) the statistics asked for are %s, expected (trial, f, split, value) for f = 0..%d" % (K, it.asked[:4], K - 1)
+                break
+    except OutOfFragment as e:
+        R.incomplete("R-C13-7", "trial value", g.loc(), "cannot evaluate value(trial): %s" % e)
+        return
+    R.check(bad is None, "R-C13-7", "trial value", g.loc(), "value(trial) is the mean over folds of the statistic's mean (evaluated symbolically for 1..%d folds)" % n,
+            "value(trial) is no longer the fold-average of the mean: %s" % bad)
+
+
 def rule_optimum(F, R):
     f = F.one("nano::ml::result_t::optimum_trial", "src/machine/result.cpp")
-    loops = [x for x in f.nodes() if x["k"] == "for"]
-    ok = False
-    detail = ""
-    if len(loops) == 1:
-        lp = loops[0]
-        init, cond, inc, body = (lp["c"][lp["r"].index(r)] for r in ("init", "cond", "inc", "body"))
-        iv = init["c"][0]
-        ifs = [x for x in walk(body) if x["k"] == "if"]
-        val = [v for v in walk(body) if v["k"] == "var" and v.get("c")]
-        if len(ifs) == 1 and val:
-            vc = skip(val[0]["c"][0])
-            c = pp(ifs[0]["c"][ifs[0]["r"].index("cond")])
-            then = ifs[0]["c"][ifs[0]["r"].index("then")]
-            ws = sorted(kalg.designator(assignment(s)[0]) + "=" + pp(assignment(s)[1]) for s in walk(then) if assignment(s))
-            defaults = [y["n"] for y in walk(vc) if y["k"] == "ref" and y.get("dk") == "enum"]
-            ok = pp(iv["c"][0]) == "0" and pp(cond) == "(%s < trials())" % iv["n"] and pp(inc) == "(++%s)" % iv["n"] and \
-                c in ("(%s < best_value)" % val[0]["n"], "(%s <= best_value)" % val[0]["n"]) and ws == ["best_trial=%s" % iv["n"], "best_value=%s" % val[0]["n"]] and \
-                is_call(vc, "nano::ml::result_t::value") and pp(args(vc)[0]) == iv["n"] and defaults == ["nano::ml::split_type::valid", "nano::ml::value_type::errors"]
-            detail = "cond %s writes %s value %s defaults %s" % (c, ws, pp(vc)[:60], defaults)
-    rets = [x for x in f.nodes() if x["k"] == "return"]
-    ok = ok and len(rets) == 1 and pp(rets[0]["c"][0]) == "best_trial"
-    R.check(ok, "R-C13-7", "optimum trial", f.loc(), "arg-min over all trials of value(trial) = mean validation error", "optimum_trial is no longer the strict arg-min of the validation error: " + detail)
+    _optimum_eval(F, R, f)
     v = [g for g in F.fn("nano::ml::result_t::value", "src/machine/result.cpp")]
     for g in v[:1]:
-        acc = [n for n in g.nodes() if assignment(n) and assignment(n)[2] == "+="]
-        rets = [x for x in g.nodes() if x["k"] == "return"]
-        okv = len(acc) == 1 and pp(assignment(acc[0])[1]) == "stats.m_mean" and len(rets) == 1 and pp(rets[0]["c"][0]) == "(sum_mean / cast<double>(folds()))"
-        sv = [x for x in g.calls(lambda x: callee(x) == "nano::ml::result_t::stats")]
-        okv = okv and len(sv) == 1 and [pp(a) for a in args(sv[0])] == ["trial", "fold", "split", "value"]
-        R.check(okv, "R-C13-7", "trial value", g.loc(), "value(trial) is the mean over folds of the statistic's mean", "value(trial) is no longer the fold-average of the mean")
+        _trial_value(F, R, g)
 
 
 def rule_distinct_batches(F, R, fns):
